@@ -534,7 +534,7 @@ func (db *SingleBucketBackend) deleteObjectLocked(bucketName, objectName string)
 // parents of objectName that are empty, otherwise they show up as common
 // prefixes of keys that are gone, or were never stored.
 func (db *SingleBucketBackend) pruneEmptyDirsLocked(objectName string) {
-	for dir := path.Dir(path.Clean(objectName)); dir != "." && dir != "/" && !strings.HasPrefix(dir, ".."); dir = path.Dir(dir) {
+	for dir := path.Dir(path.Clean(objectName)); dir != "." && dir != "/" && dir != ".." && !strings.HasPrefix(dir, "../"); dir = path.Dir(dir) {
 		entries, err := afero.ReadDir(db.fs, filepath.FromSlash(dir))
 		if noSuchFile(err) {
 			continue // never made: its parents may have been
